@@ -1,3 +1,4 @@
+import Clover.Proofs.BulkExact
 import Clover.Spec.Spec
 import Clover.Proofs.RefineBulkAny
 /-! # C03 — bulk update/delete touch exactly the matched documents, once each -/
@@ -99,5 +100,25 @@ theorem dropCollection_removes_all (s : Spec.State) (σ : KVS) (hw : WF s) (hr :
     let r := withTx true (Op.body likeFn fnFam (.dropCollection c)) noFault σ
     let sp := Spec.step likeFn fnFam s (.dropCollection c)
     r.1 = sp.1 ∧ Rep sp.2 r.2.1 ∧ WF sp.2 := dropCollection_refines likeFn fnFam s σ hw hr c
+
+end CV.Props.C03
+
+namespace CV.Props.C03
+open CV
+
+/-- **The result of a bulk write does not depend on the order in which the selected documents are
+    visited** (index order, id order, sorted order): for permuted selections of live documents with
+    distinct ids the specification's apply phase succeeds for one iff for the other, with the same
+    resulting documents. -/
+theorem bulk_write_order_independent (u : Upd) (docs : List (Bytes × Doc)) (hs : Spec.KeysSorted docs) (sel sel' : List Doc)
+    (hl : Live docs sel) (hl' : Live docs sel') (hp : sel.Perm sel') :
+    ((∃ r, Spec.applyAll u docs sel = .ok r) ↔ (∃ r, Spec.applyAll u docs sel' = .ok r)) ∧
+    (∀ docs₁ docs₂, Spec.applyAll u docs sel = .ok docs₁ → Spec.applyAll u docs sel' = .ok docs₂ → docs₁ = docs₂) :=
+  ⟨applyAll_ok_perm u docs sel sel' hp, fun d1 d2 h1 h2 => applyAll_perm_eq u docs hs sel sel' hl hl' hp d1 d2 h1 h2⟩
+
+/-- each selected document is replaced by the updater's result on its pre-call value (or removed) -/
+theorem each_selected_document_rewritten_once (u : Upd) (sel : List Doc) (docs docs' : List (Bytes × Doc))
+    (hs : Spec.KeysSorted docs) (hnd : (sel.map Doc.objectId).Nodup) (h : Spec.applyAll u docs sel = .ok docs') :
+    ∀ d ∈ sel, Spec.lookup d.objectId docs' = u.apply d := applyAll_lookup_sel u sel docs docs' hs hnd h
 
 end CV.Props.C03
